@@ -75,8 +75,11 @@ Definition spec_str (fn : bytes) (s : bytes) (args : list value) : sres :=
   else if is (bs "repeat") then
     match args with
     | VInt n :: _ => if (n <=? 0)%Z then SVal (VStr [])
+                     else match s with [] => SVal (VStr []) | _ =>
+                     (* an oversized result (longer than the limit read from the source) is refused *)
+                     if repeat_too_long s n then SErr
                      else if (1000 <? n)%Z then SUnspec
-                     else SVal (VStr (concat (repeat s (Z.to_nat n))))
+                     else SVal (VStr (concat (repeat s (Z.to_nat n)))) end
     | _ => SErr
     end
   else if is (bs "decimal") then
@@ -123,6 +126,9 @@ Definition spec_arr (fn : bytes) (l : list value) (args : list value) : sres :=
                   | Some ss => SVal (VStr (join sep ss)) | None => SUnspec end
     | None => SErr
     end
+  else if is (bs "shuffle") then
+    (* a permutation of the receiver: determined for fewer than two elements, any permutation otherwise *)
+    match l with [] | [_] => SVal (VArr l) | _ => SUnspec end
   else if is (bs "rand") then SVal (match l with [] => VNil | x :: _ => x end)
       (* "an element": the implementation returns the first; any element would meet the contract *)
   else SErr.
